@@ -17,7 +17,7 @@ fi
 git -C $M/repo checkout -q --detach "$(git -C /repo rev-parse HEAD)" || exit 2
 git -C $M/repo checkout -q -- . ; git -C $M/repo clean -fdq
 if [ "$PATCH" != "-" ]; then
-    git -C $M/repo apply "$PATCH" || { echo "patch does not apply"; exit 2; }
+    git -C $M/repo apply "$PATCH" 2>/dev/null || git -C $M/repo apply -C1 "$PATCH" 2>/dev/null || git -C $M/repo apply --3way "$PATCH" 2>/dev/null || { echo "patch does not apply"; exit 2; }
 fi
 rsync -a --delete --exclude target /verif/harness/ $M/harness/
 sed -i "s#/repo/crates/#$M/repo/crates/#g" $M/harness/Cargo.toml
